@@ -17,6 +17,13 @@ instance theorems of coq/C13.v.
                                 `with current_options.push(with_contexts=with_contexts,
                                 recurse_child_tasks=recurse_child_tasks)`; fill_context pushes
                                 (True, False) under `if current_options.with_contexts is None`
+  c13_fresh_result_lists        every Stack built in _extract.py owns a fresh `frames` list: no function
+                                of the module has a mutable default argument, the module (and its class
+                                bodies) binds no list/dict/set at top level apart from __all__, and the
+                                `frames` argument of every `Stack(...)` call is a list display /
+                                comprehension / list(...) call or a local bound only to such expressions
+                                (never a parameter) -- so a for_task stub can never share its list with
+                                another stub, a later extraction or another thread
 """
 from __future__ import annotations
 
@@ -237,16 +244,128 @@ def entry_points(tree) -> bool:
     return False
 
 
+def _immutable_default(v) -> bool:
+    if isinstance(v, ast.Constant):
+        return True
+    if isinstance(v, ast.Tuple):
+        return all(_immutable_default(e) for e in v.elts)
+    if isinstance(v, ast.UnaryOp) and isinstance(v.op, (ast.USub, ast.UAdd, ast.Not)):
+        return _immutable_default(v.operand)
+    return False
+
+
+def _fresh_list_expr(v) -> bool:
+    if isinstance(v, (ast.List, ast.ListComp)):
+        return True
+    return (isinstance(v, ast.Call) and isinstance(v.func, ast.Name) and v.func.id == "list"
+            and not v.keywords and len(v.args) <= 1)
+
+
+def _mutable_literal(v) -> bool:
+    if isinstance(v, (ast.List, ast.Dict, ast.Set, ast.ListComp, ast.DictComp, ast.SetComp)):
+        return True
+    return (isinstance(v, ast.Call) and isinstance(v.func, (ast.Name, ast.Attribute))
+            and (v.func.id if isinstance(v.func, ast.Name) else v.func.attr)
+            in ("list", "dict", "set", "deque", "defaultdict", "OrderedDict", "bytearray"))
+
+
+def fresh_result_lists(tree) -> bool:
+    # 1. no mutable default argument anywhere in the module
+    for n in ast.walk(tree):
+        if isinstance(n, (ast.FunctionDef, ast.AsyncFunctionDef, ast.Lambda)):
+            for d in list(n.args.defaults) + [k for k in n.args.kw_defaults if k is not None]:
+                if not _immutable_default(d):
+                    return False
+    # 2. no list/dict/set bound at module or class level (apart from __all__)
+    def top_level(body):
+        for n in body:
+            if isinstance(n, ast.ClassDef):
+                if not top_level(n.body):
+                    return False
+            elif isinstance(n, (ast.Assign, ast.AnnAssign)) and n.value is not None:
+                tg = n.targets if isinstance(n, ast.Assign) else [n.target]
+                names = [t.id for t in tg if isinstance(t, ast.Name)]
+                if names != ["__all__"] and _mutable_literal(n.value):
+                    return False
+        return True
+    if not top_level(tree.body):
+        return False
+    # 3. every Stack(...) call sits in a function and gets a fresh list as `frames`
+    funcs = [n for n in tree.body if isinstance(n, (ast.FunctionDef, ast.AsyncFunctionDef))]
+    for c in tree.body:
+        if isinstance(c, ast.ClassDef):
+            funcs += [n for n in c.body if isinstance(n, (ast.FunctionDef, ast.AsyncFunctionDef))]
+    in_funcs = set()
+    n_calls = 0
+    in_extract_child = 0
+    for fn in funcs:
+        params = {a.arg for a in fn.args.args + fn.args.kwonlyargs + fn.args.posonlyargs}
+        if fn.args.vararg:
+            params.add(fn.args.vararg.arg)
+        if fn.args.kwarg:
+            params.add(fn.args.kwarg.arg)
+        bound = {}     # name -> list of value expressions (None = bound by something else)
+        for x in ast.walk(fn):
+            if isinstance(x, ast.Assign):
+                for t in x.targets:
+                    for nm in ast.walk(t):
+                        if isinstance(nm, ast.Name):
+                            bound.setdefault(nm.id, []).append(x.value if t is nm else None)
+            elif isinstance(x, ast.AnnAssign) and isinstance(x.target, ast.Name) and x.value is not None:
+                bound.setdefault(x.target.id, []).append(x.value)
+            elif isinstance(x, (ast.For, ast.AsyncFor, ast.comprehension)):
+                for nm in ast.walk(x.target):
+                    if isinstance(nm, ast.Name):
+                        bound.setdefault(nm.id, []).append(None)
+            elif isinstance(x, (ast.With, ast.AsyncWith)):
+                for it in x.items:
+                    if it.optional_vars is not None:
+                        for nm in ast.walk(it.optional_vars):
+                            if isinstance(nm, ast.Name):
+                                bound.setdefault(nm.id, []).append(None)
+            elif isinstance(x, ast.NamedExpr) and isinstance(x.target, ast.Name):
+                bound.setdefault(x.target.id, []).append(None)
+            elif isinstance(x, (ast.Global, ast.Nonlocal)):
+                return False
+        for x in ast.walk(fn):
+            if isinstance(x, ast.Call) and isinstance(x.func, ast.Name) and x.func.id == "Stack":
+                in_funcs.add(id(x))
+                n_calls += 1
+                if fn.name == "extract_child":
+                    in_extract_child += 1
+                if any(isinstance(a, ast.Starred) for a in x.args) or any(k.arg is None for k in x.keywords):
+                    return False
+                fr = None
+                for k in x.keywords:
+                    if k.arg == "frames":
+                        fr = k.value
+                if fr is None and len(x.args) >= 2:
+                    fr = x.args[1]
+                if fr is None:
+                    return False
+                if _fresh_list_expr(fr):
+                    continue
+                if (isinstance(fr, ast.Name) and fr.id not in params and bound.get(fr.id)
+                        and all(v is not None and _fresh_list_expr(v) for v in bound[fr.id])):
+                    continue
+                return False
+    for x in ast.walk(tree):
+        if isinstance(x, ast.Call) and isinstance(x.func, ast.Name) and x.func.id == "Stack" and id(x) not in in_funcs:
+            return False          # built at module level or inside a nested scope we did not analyse
+    return n_calls >= 2 and in_extract_child >= 2
+
+
 def compute():
     try:
         tree = _parse()
     except Exception:
         return {"c13_options_thread_local": False, "c13_push_restores_in_finally": False,
-                "c13_entry_points_push": False}
+                "c13_entry_points_push": False, "c13_fresh_result_lists": False}
     out = {}
     for name, fn in (("c13_options_thread_local", thread_local),
                      ("c13_push_restores_in_finally", push_restores),
-                     ("c13_entry_points_push", entry_points)):
+                     ("c13_entry_points_push", entry_points),
+                     ("c13_fresh_result_lists", fresh_result_lists)):
         try:
             out[name] = bool(fn(tree))
         except Exception:
